@@ -266,13 +266,14 @@ pub fn drive_blocking(
                 Some((b, m)) => DltMessageReader::with_capacity(b, m, src, storage),
             };
             let mut outs = vec![];
+            let mut live = LiveFilter(None);
             for i in 0..bound + 1 {
                 let slices = use_slice(api, i);
                 let o = match guard(|| {
                     if slices {
                         of_slice(reader.next_message_slice())
                     } else {
-                        of_parsed(dlt_core::read::read_message(&mut reader, filter_at(i, filter).as_ref()))
+                        of_parsed(dlt_core::read::read_message(&mut reader, live.set(filter_at(i, filter))))
                     }
                 }) {
                     Ok(o) => o,
@@ -288,7 +289,7 @@ pub fn drive_blocking(
                             if use_slice(api, i + 1 + j) {
                                 of_slice(reader.next_message_slice())
                             } else {
-                                of_parsed(dlt_core::read::read_message(&mut reader, filter_at(i + 1 + j, filter).as_ref()))
+                                of_parsed(dlt_core::read::read_message(&mut reader, live.set(filter_at(i + 1 + j, filter))))
                             }
                         }) {
                             Ok(o) => o,
@@ -387,13 +388,14 @@ pub fn drive_async(
             Some((b, m)) => DltStreamReader::with_capacity(b, m, src, storage),
         };
         let mut outs = vec![];
+        let mut live = LiveFilter(None);
         for i in 0..bound + 1 {
             let slices = use_slice(api, i);
             let o = match guard(|| {
                 if slices {
                     block_on_budget(reader.next_message_slice(), budget).map(of_slice)
                 } else {
-                    block_on_budget(dlt_core::stream::read_message(&mut reader, filter_at(i, filter).as_ref()), budget)
+                    block_on_budget(dlt_core::stream::read_message(&mut reader, live.set(filter_at(i, filter))), budget)
                         .map(of_parsed)
                 }
             }) {
@@ -718,10 +720,22 @@ thread_local! {
 }
 /// run `f` with call i of every driver / of the reference using `filter` (i even) or the configuration `alt` (i odd)
 pub fn with_alternating_filter<T>(alt: Option<u8>, f: impl FnOnce() -> T) -> T {
-    ALT_FILTER.with(|a| *a.borrow_mut() = alt.map(filter_by_index));
+    ALT_FILTER.with(|a| *a.borrow_mut() = alt.map(filter_for));
     let r = f();
     ALT_FILTER.with(|a| *a.borrow_mut() = None);
     r
+}
+/// The filter argument of a run lives in ONE object that is assigned anew before every call (a viewer whose filter
+/// setting is edited while the stream runs): same address, changing content.
+struct LiveFilter(Option<ProcessedDltFilterConfig>);
+impl LiveFilter {
+    fn set(&mut self, f: Option<ProcessedDltFilterConfig>) -> Option<&ProcessedDltFilterConfig> {
+        match (&mut self.0, f) {
+            (Some(slot), Some(new)) => *slot = new,
+            (slot, new) => *slot = new,
+        }
+        self.0.as_ref()
+    }
 }
 /// the filter of call number i
 fn filter_at(i: usize, filter: Option<&ProcessedDltFilterConfig>) -> Option<ProcessedDltFilterConfig> {
@@ -732,5 +746,9 @@ fn filter_at(i: usize, filter: Option<&ProcessedDltFilterConfig>) -> Option<Proc
 }
 
 pub fn filter_for(i: u8) -> Option<ProcessedDltFilterConfig> {
+    if i == 8 {
+        // a configuration object without any criterion (keeps everything)
+        return Some(ProcessedDltFilterConfig { min_log_level: None, app_ids: None, ecu_ids: None, context_ids: None, app_id_count: 0, context_id_count: 0 });
+    }
     filter_by_index(i)
 }
